@@ -52,13 +52,21 @@ var (
 	goBin   = flag.String("go", "go1.26.8", "go binary")
 	extra   = flag.String("overlay-extra", "", "JSON file with additional overlay entries to merge")
 	osredir = flag.String("osredirect", "", "comma separated pkg/file.go whose import of \"os\" is redirected to the simulated disk")
+	observe = flag.String("observe", "go.miragespace.co/specter/spec/rpc.WrapError,go.miragespace.co/specter/spec/rpc.WrapErrorKV", "comma separated importpath.Func: calls are routed through simrt.ObserveN so that a harness hook sees arguments and result")
 )
+
+var observed = map[string]bool{}
 
 func main() {
 	flag.Parse()
 	if *outDir == "" || *modDir == "" {
 		fmt.Fprintln(os.Stderr, "instr: -mod and -out required")
 		os.Exit(2)
+	}
+	for _, q := range strings.Split(*observe, ",") {
+		if q != "" {
+			observed[q] = true
+		}
 	}
 	type target struct {
 		pkg   string
@@ -513,6 +521,17 @@ func (rw *rewriter) rewriteCall(c *ast.CallExpr) {
 		// package-level functions
 		if id, ok := fun.X.(*ast.Ident); ok {
 			if pn, ok := rw.info.Uses[id].(*types.PkgName); ok {
+				if q := pn.Imported().Path() + "." + fun.Sel.Name; observed[q] && len(c.Args) >= 1 && len(c.Args) <= 2 && !c.Ellipsis.IsValid() {
+					// f(a[, b])  =>  simrt.ObserveN("pkg.f", f, a[, b]): the harness sees arguments and result
+					// of this call (e.g. the error a handler hands to rpc.WrapError and what goes on the wire)
+					name := fmt.Sprintf("Observe%d", len(c.Args))
+					args := append([]ast.Expr{&ast.BasicLit{Kind: token.STRING, Value: strconv.Quote(q)}, c.Fun}, c.Args...)
+					c.Fun = simSel(pos, name)
+					c.Args = args
+					rw.used = true
+					rw.stats[name]++
+					return
+				}
 				switch pn.Imported().Path() + "." + fun.Sel.Name {
 				case "time.Sleep":
 					rw.dropped["time"] = "Second"
